@@ -358,3 +358,9 @@ Proof.
   unfold resp_outcome. intros H Ht. rewrite Ht in H. cbn in H. inversion H. reflexivity.
 Qed.
 
+
+(* SendMsg has no size limit of its own: on a live channel whose write succeeds, every message is written,
+   whatever its size (the 1 MB limit is the receiver's: c09_reject_closes / c09_frame_safe) *)
+Lemma send_any_size r m :
+  dead r = false -> send_msg false true r m = (r, [EvSend m], true).
+Proof. intros H. unfold send_msg. rewrite H. reflexivity. Qed.
